@@ -216,11 +216,25 @@ package sync
 // because the context ended
 //@ ghost var ctxEnded bool
 //@ ghost var hdrCancelled bool
+// fetching the header of one block (C05): the node is asked for exactly that number until it answers; the header handed
+// back is the node's answer (A8: it is the header of the number asked for); the fetch is abandoned - which the callers
+// read as "stop" - only when the node's client reported context.Canceled, never for another failure
+//@ ghost var hdrLastErrCanceled bool
+//@ interface github.com/agglayer/aggkit/types.BaseEthereumClienter.HeaderByNumber@sync.(*EVMDownloaderImplementation).GetBlockHeader (self, ctx, number)
+//@   requires number != nil
+//@   modifies hdrLastErrCanceled
+//@   ensures result1 != nil ==> result0 == nil && hdrLastErrCanceled == isErr(result1, context.Canceled)
+//@   ensures result1 == nil ==> result0 != nil && result0.Number != nil && bigval(result0.Number) == bigval(number) && hdrLastErrCanceled == old(hdrLastErrCanceled)
 //@ func (d *EVMDownloaderImplementation) GetBlockHeader
-//@   trusted
-//@   modifies hdrCancelled
-//@   ensures hdrCancelled == result1
-//@   ensures !result1 ==> result0.Num == blockNum
+//@   props C05
+//@   requires d != nil && d.ethClient != nil && d.log != nil && d.rh != nil
+//@   modifies hdrCancelled, hdrLastErrCanceled
+//@   set hdrCancelled := result1
+//@   ensures[outcome-recorded] hdrCancelled == result1
+//@   ensures[the-header-of-the-block-asked-for] !result1 ==> result0.Num == blockNum
+//@   ensures[abandoned-only-when-the-context-was-cancelled] result1 ==> hdrLastErrCanceled
+//@   assert call:HeaderByNumber arg1 != nil && bigval(arg1) == blockNum
+//@   loop 0 invariant d != nil && d.ethClient != nil && d.log != nil && d.rh != nil
 
 // every log appender (the per-topic decoding functions of the syncers) only adds to the block's event list
 //@ interface functype:func(*github.com/agglayer/aggkit/sync.EVMBlock,github.com/ethereum/go-ethereum/core/types.Log)error (b, l)
